@@ -11,6 +11,7 @@ replace github.com/pokt-network/pocket-core => /repo
 require (
 	github.com/google/btree v1.0.0
 	github.com/pokt-network/pocket-core v0.0.0-00010101000000-000000000000
+	github.com/tendermint/go-amino v0.15.1
 	github.com/tendermint/tendermint v0.33.7
 	github.com/tendermint/tm-db v0.5.1
 	golang.org/x/crypto v0.0.0-20210921155107-089bfa567519
@@ -55,7 +56,6 @@ require (
 	github.com/spf13/pflag v1.0.5 // indirect
 	github.com/stretchr/testify v1.7.0 // indirect
 	github.com/syndtr/goleveldb v1.0.1-0.20210819022825-2ae1ddf74ef7 // indirect
-	github.com/tendermint/go-amino v0.15.1 // indirect
 	github.com/willf/bitset v1.1.10 // indirect
 	github.com/willf/bloom v2.0.3+incompatible // indirect
 	golang.org/x/exp v0.0.0-20230131160201-f062dba9d201 // indirect
